@@ -31,6 +31,11 @@ var solvers = []solverSpec{
 		return []string{"cvc5", "--strings-exp", "--lang=smt2", fmt.Sprintf("--tlimit=%d", t*1000), f}
 	}},
 	{"z3", func(f string, t int) []string { return []string{"z3", "-smt2", fmt.Sprintf("-T:%d", t), f} }},
+	// a second cvc5 configuration: with the internal decision heuristic it decides several string goals
+	// mixing word equations with uninterpreted functions (dec) that the default configuration does not
+	{"cvc5-di", func(f string, t int) []string {
+		return []string{"cvc5", "--strings-exp", "--decision=internal", "--lang=smt2", fmt.Sprintf("--tlimit=%d", t*1000), f}
+	}},
 }
 
 func workDir() string {
